@@ -51,7 +51,12 @@ fn generate(corpus: &Corpus, tier: Tier, run: u64, rng: &mut Rng) -> Option<Case
         eval_any_knot: false,
     };
     let ops = gen_script(rng, &prog, &cfg);
-    let host = default_host(&prog, rng);
+    let mut host = default_host(&prog, rng);
+    // a third of the hosts bind nothing and allow the Ink fallbacks
+    if rng.chance(1, 3) {
+        host.bindings.clear();
+        host.fallbacks = true;
+    }
     Some(Case {
         prop: "C18".into(),
         run,
